@@ -108,6 +108,26 @@ Example C07_rerun_nonvacuous :
   length (filter (fun k => match out k with ONoChanges => true | _ => false end) (seq 0 39)) = 17%nat.
 Proof. vm_compute. repeat split; reflexivity. Qed.
 
+(* ... and "the same final state" cannot be strengthened to byte-identical manifest FILES: the
+   faithful model refutes it (known finding K7f).  A root without outputs in which the interrupted
+   deploy deleted the last recorded file gets an empty manifest from the uninterrupted run; the
+   re-run finds nothing to do and writes none.  Both states list nothing for that root. *)
+Example C07_rerun_files_refuted :
+  let r := Build_root (s "codex") [s "h"; s "c"] false in
+  let pp := [s "h"; s "c"; s "prompts"; s "p.md"] in
+  let f : fs := upd (fun _ => None) pp (Some (FBytes 1)) in
+  let S1 := {| sn_kind := KDeploy; sn_managed := [(s "codex", pp, 1)]; sn_changes := []; sn_to := None; sn_state := true |} in
+  let w := Build_world f [S1] in
+  let D : list dfile := [] in
+  let pl := plan f D (managed_for_plan w [r] None) in
+  let w1 := apply_plan KDeploy w [r] D pl in
+  let wc := {| files := cfiles (run_prefix 6 (steps_of_apply f [r] D pl) (init_state f)); snaps := [S1] |} in
+  let res := deploy_cmd SJsonYes true false None wc [r] D in
+  map c_op pl = [PDelete] /\ fst (snd res) = ONoChanges /\
+  files w1 (mf_path r) = Some (new_manifest r []) /\ files (snd (snd res)) (mf_path r) = None /\
+  root_managed (files w1) r = [] /\ root_managed (files (snd (snd res))) r = [].
+Proof. vm_compute. repeat split; reflexivity. Qed.
+
 (* regression witness of the repaired defect K7c (/repo commit "a stale or unreadable target manifest
    is rewritten by the next deploy"): after a crash between the last file write and the manifest
    write the re-run used to find an empty plan and an existing (stale) manifest and took the
